@@ -256,6 +256,13 @@ def axioms_for(atoms):
             out.append((">=", Poly.const(1) - b))
         elif a[0] == "band" and len(a) == 3:  # x & (2^k - 1)
             out.append((">=", Poly.const(a[2]) - Poly.atom(a)))
+        elif a[0] == "vlen" and isinstance(a[1], tuple) and len(a[1]) == 5 and a[1][:2] == ("V", "vecext"):
+            # the length of a Vec after `extend(pipeline)`: at least what it was, at most that plus what the pipeline can yield
+            old, mx = a[1][2], a[1][3]
+            oldlen = Poly.const(0) if (isinstance(old, tuple) and len(old) == 3 and old[:2] == ("V", "vecnew")) else Poly.atom(("vlen", old))
+            out.append((">=", Poly.atom(a) - oldlen))
+            if mx is not None:
+                out.append((">=", oldlen + mx - Poly.atom(a)))
         elif a[0] == "ridx" and len(a) == 4:  # index yielded by `lo..hi`
             out.append((">=", Poly.atom(a) - a[2]))
             out.append((">=", a[3] - Poly.atom(a) - Poly.const(1)))
@@ -291,7 +298,7 @@ class _Budget:
         self.n = n
 
 
-DEADLINE = [None]   # wall-clock time after which every proof attempt gives up at once (set by the abstract interpreter per analysis)
+DEADLINE = [None]   # CPU time (time.process_time) after which every proof attempt gives up at once (set by the abstract interpreter per analysis)
 EXPIRED = [0]
 
 
@@ -301,7 +308,7 @@ def prove_ge0(p, facts, depth=3, _seen=None, _budget=None):
         return True
     if depth == 0:
         return False
-    if DEADLINE[0] is not None and _time.time() > DEADLINE[0]:
+    if DEADLINE[0] is not None and _time.process_time() > DEADLINE[0]:
         EXPIRED[0] += 1
         return False   # "not proved" is always a sound answer
     if _budget is None:
